@@ -102,6 +102,29 @@ def harness(grad_kind):
                 return heap.new_array(shape=shp, dtype=to_z3(dtype) if dtype is not None else ctx.fresh("dt", "int"), base=0, layout=CLAYOUT(shp),
                                       val=heap.get("ndarray", "val", x.ref) * heap.get("ndarray", "val", y.ref))
 
+        RESIZEVAL = z3.Function("RESIZEVAL", z3.RealSort(), I, I, z3.RealSort())  # np.resize fills by cycling the flattened input
+
+        def np_broadcast_shapes(*shapes):
+            sa, sb = to_z3(shapes[0]), to_z3(shapes[1])
+            if ctx.choose(2, "np.broadcast_shapes") == 0:
+                raise SymRaise(ExcInst(ValueError, ("shape mismatch",)))
+            return z3.If(sa == sb, sa, BSHAPE(sa, sb))
+
+        def np_resize(a, new_shape):
+            ns = to_z3(new_shape)
+            return heap.new_array(shape=ns, dtype=heap.get("ndarray", "dtype", a.ref), base=0, layout=CLAYOUT(ns),
+                                  val=RESIZEVAL(heap.get("ndarray", "val", a.ref), heap.get("ndarray", "shape", a.ref), ns))
+
+        def np_broadcast_to(a, shape, **k):
+            ns = to_z3(shape)
+            if ctx.choose(2, "np.broadcast_to") == 0:
+                raise SymRaise(ExcInst(ValueError, ("cannot broadcast",)))
+            ctx.assume(z3.If(heap.get("ndarray", "shape", a.ref) == ns, True, BSHAPE(heap.get("ndarray", "shape", a.ref), ns) == ns))
+            return heap.new_array(shape=ns, dtype=heap.get("ndarray", "dtype", a.ref), base=a.ref, layout=ctx.fresh("lay", "int"), val=heap.get("ndarray", "val", a.ref))
+
+        NP.broadcast_shapes = staticmethod(np_broadcast_shapes)
+        NP.resize = staticmethod(np_resize)
+        NP.broadcast_to = staticmethod(np_broadcast_to)
         cfg.module_overrides["numpy"] = NP
         # ---- callee contracts --------------------------------------------------------------------------------
         n = z3.Int("n_topo")
